@@ -510,12 +510,30 @@ def c05(ctx):
                                               [(text, S['pub']['valid'], S['keys']['valid'], pos[k::16]) for k in range(16)],
                                               chunksize=1) for r in o]
             real += d.cli_isolation_records(S, ctx.seed)
+            real += d.system_trust_records(S, ctx.seed)
         finally:
             S['home'].close()
         ctx.extra['real_gpg_records'] = len(real)
         recs += real
     else:
         ctx.skipped.append('gpg not available: real-gpg parts skipped')
+    # key refresh (-K without -R): Refresh.tla, its defect configurations, and its behaviours through the
+    # real refresh_keys() with real gpg, substituted WKD answers and a loopback key server
+    ctx.mc('MC_Refresh', 'MC_Refresh.cfg', timeout=3000)
+    for cfg, inv in (('MC_Refresh_trust.cfg', 'C05_OnlyFileKeysTrusted'), ('MC_Refresh_nodelete.cfg', 'X07_NoForeignKeyLeft'),
+                     ('MC_Refresh_norequire.cfg', 'X08_OkMeansEveryKeyRefreshed'), ('MC_Refresh_X06.cfg', 'X06_FileKeysKept')):
+        ctx.mc('MC_Refresh', cfg, expect_violation=inv, coverage=False)
+    if gpgenv.have_gpg():
+        from . import drv_refresh as dr
+        behs = _export(ctx, 'MC_Refresh', 'MC_Refresh.cfg', [], sample=(6000 if thorough else 480), rng=rng)
+        mat = dr.build_material()
+        rrecs = core.pool_map(dr.run_scenario, [(b, mat, ctx.seed) for b in behs], chunksize=4)
+        ctx.extra['refresh_scenarios'] = len(rrecs)
+        ctx.sample({'direction': 'spec->code->spec (key refresh)', 'record': rrecs[7]})
+        ctx.judge('TraceRefresh', 'TraceRefresh.cfg', rrecs, None, {'module': 'TraceRefresh'},
+                  sig=lambda r: hash(json_key({a: b for a, b in r.items() if a not in ('id',)})),
+                  reject_drift='RefreshTraceRejected')
+        ctx.extra['refresh_traces_rejected'] = len(getattr(ctx, 'last_rejected', []))
     for k in range(0, len(recs), 200000):
         ctx.judge('TraceGpg', 'TraceGpg.cfg', recs[k:k + 200000], None, {'module': 'TraceGpg'},
                   sig=lambda r: hash(json_key({a: b for a, b in r.items() if a not in ('id', 'pos')})))
